@@ -54,7 +54,7 @@ def run_scratch(ids, tier, root, results):
             else:
                 if meta.get("demo"):
                     r["demo_patched_exit"] = sh([PY, os.path.join(d, meta["demo"])], cwd=wt, env=env)[0]
-                for prop in meta.get("checks", [meta["property"]]):
+                for prop in ([meta["property"]] if os.environ.get("SEEDED_PRIMARY_ONLY") == "1" else meta.get("checks", [meta["property"]])):
                     t0 = time.time()
                     rc, out = sh([PY, os.path.join(VERIF, "harness", "check.py"), prop, "--tier", tier], cwd=VERIF,
                                  env={"VERIF_SEED": os.environ.get("VERIF_SEED", "0"), "VERIF_REPO": wt, "VERIF_EVIDENCE_DIR": evd})
@@ -106,7 +106,7 @@ def main():
             sh(["git", "-C", REPO, "apply", patch])
             rc1, out1 = sh([PY, demo], cwd=REPO, env=env)
             r["demo_patched_exit"] = rc1
-            for prop in meta.get("checks", [meta["property"]]):
+            for prop in ([meta["property"]] if os.environ.get("SEEDED_PRIMARY_ONLY") == "1" else meta.get("checks", [meta["property"]])):
                 t0 = time.time()
                 rc, out = sh([PY, os.path.join(VERIF, "harness", "check.py"), prop, "--tier", tier], cwd=VERIF,
                              env={"VERIF_SEED": os.environ.get("VERIF_SEED", "0")})
